@@ -163,6 +163,8 @@ def check(pid, tier='quick', seed=0, shared=None, write_evidence=True, quiet=Fal
             dep_verified.append(f"shim/{sd['shim'].replace(':', '.rs ', 1)} == contract verified on {sd['source']} ({sd['function']}, world {wname})")
         if any((meta.get('generated') or {}).values()):
             generated[wname] = meta['generated']
+        for sb in meta.get('shim_blocks', []):
+            dep_verified.append(f"shim/{sb.replace(': ', '.rs ', 1)} == spec block the real impl is verified against (world {wname}, {', '.join(f'{k}-{v}' for k, v in meta.get('registry_crates', {}).items())})")
         for k, v in meta['counters'].items():
             counters[k] = counters.get(k, 0) + v
         # functions degraded to their assumed contract (lost anchor / no longer in the verified subset)
